@@ -152,6 +152,9 @@ std::string show(const Soup &s) {
   return o;
 }
 
+// Input class carried by signatures: which special position patterns occur
+// and which second-attribute types are present (not F / per-face vs
+// per-corner: one defect should not fan out into dozens of signatures).
 std::string input_class(const Soup &s) {
   bool z0 = false, z1 = false, nan = false;
   for (int c = 0; c < 3 * s.F; ++c) {
@@ -159,11 +162,10 @@ std::string input_class(const Soup &s) {
     z1 |= s.pos[c] == 1;
     nan |= s.pos[c] >= 3;
   }
-  std::string k = "F" + std::to_string(s.F);
-  if (z0 && z1) k += ",+0and-0";
-  if (nan) k += ",nan";
-  for (int i = 0; i < s.nextra; ++i)
-    k += std::string(",") + type_info(s.extra[i].spec.type).name + (s.extra[i].spec.per_face ? "/face" : "/corner");
+  std::string k = "pos";
+  if (z0 && z1) k += "+0and-0";
+  if (nan) k += "+nan";
+  for (int i = 0; i < s.nextra; ++i) k += std::string(",") + type_info(s.extra[i].spec.type).name;
   return k;
 }
 
@@ -953,10 +955,9 @@ std::string show(const Cloud &c) {
 }
 
 std::string input_class(const Cloud &c) {
-  std::string k = "N" + std::to_string(c.N);
+  std::string k = "cloud";
   if (c.type >= 0) k += std::string(",") + type_info(c.type).name;
-  k += c.dedup ? ",dedup" : ",nodedup";
-  k += ",setter" + std::to_string(c.setter);
+  k += c.dedup ? ",Finalize(true)" : ",Finalize(false)";
   return k;
 }
 
